@@ -79,4 +79,18 @@ CLAIMS["C10"] = {
     "design_ref": "DESIGN.md §4 C10",
 }
 
+CLAIMS["C17"] = {
+    "technique": "constant/table agreement against a hand-written spec table; decision-table and byte-layout extraction by path enumeration with term substitution",
+    "text": "Decides the table- and layout-shaped clauses: enum discriminants, wire constants, flag bits and the strum/TryFrom decode tables "
+            "equal the FastCGI specification (R17.1); From<ExitStatus> equals the documented table and ABORT == Complete(b\"ABRT\") (R17.2); "
+            "each to_record places a {V1, own type, id, 8, 0} header before its body (R17.3); the end-of-request sequence is (empty stream "
+            "header)* EndRequest(status,id) (R17.4); write_response emits one GetValuesResult for id 0 with config.max_conns / \"0\", appended "
+            "after existing contents, and RESPONSE_LEN covers the maximum by constant arithmetic (R17.5); the padding rule is {0, 8-r} (R17.6); "
+            "to_bytes/from_bytes of the four wire structs agree with each other and the spec layout, big-endian (R17.7); the version is "
+            "validated before the type (R17.8). Does NOT decide round-trip equality over all field values, reserved-byte behaviour, or the "
+            "arithmetic inside nv::write / integer formatting.",
+    "note": "spec/fastcgi.json is written from the FastCGI specification and the crate documentation, not from the code.",
+    "design_ref": "DESIGN.md §4 C17",
+}
+
 PENDING_REASON = "rules for this property are not built yet (build in progress; DESIGN.md §7 gives the order)"
